@@ -19,6 +19,7 @@ CONSTANTS GenDepth,     \* length of the histories to emit
           GenForkLen,   \* max length of a new branch (0: no reorganisations)
           GenForkDepth, \* max number of best-chain blocks a Fork detaches
           Removable,    \* wallets the generator may remove
+          GenMulti,     \* TRUE: reorganisations also happen step by step (ForkSlow, ReorgStep), see Chain.tla
           GenPending,   \* TRUE: Announce / HandleTx enabled
           Script,       \* <<>>: free generation; otherwise the exact action sequence to follow
                         \* (regression histories: TLC recomputes the expected views for them)
@@ -68,6 +69,7 @@ TaskNeed(t) == IF t[1] = "remove" THEN 1
 RECURSIVE SumNeed(_)
 SumNeed(q) == IF q = <<>> THEN 0 ELSE TaskNeed(Head(q)) + SumNeed(Tail(q))
 CanFinish == Len(ntfB') + Len(ntfT') + SumNeed(tasks') + (IF up' THEN 0 ELSE 1 + Cardinality(TaskSet'))
+                 + ReorgLeft' + (IF reorg' # 0 THEN 1 ELSE 0)
                  <= GenDepth - (Len(hist) + 1)
 
 \* how an accepted announcement relates to the wallet's own chain (classifier of known findings):
@@ -86,7 +88,7 @@ GenInit == Init /\ hist = <<>> /\ flags = {}
 \* does log entry r perform scripted action s ?
 SameAct(r, s) ==
     /\ r.a = s.a
-    /\ CASE s.a \in {"Extend", "Fork"}          -> r.b = s.b /\ r.p = s.p /\ r.txs = s.txs
+    /\ CASE s.a \in {"Extend", "Fork", "ForkSlow"} -> r.b = s.b /\ r.p = s.p /\ r.txs = s.txs
          [] s.a \in {"HandleBlock", "SwitchTo"} -> r.b = s.b
          [] s.a \in {"Announce", "HandleTx"}    -> r.t = s.t
          [] s.a = "RestartCrash"               -> r.k = s.k
@@ -110,6 +112,16 @@ GenNext ==
           /\ \E l \in Pick({x \in Blocks : IsLeaf(x) /\ ~OnBest(x)}) :
              /\ SwitchTo(l) /\ UNCHANGED followerVars
              /\ Log([a |-> "SwitchTo", b |-> l])
+       \/ GenMulti /\ up /\ \E pk \in Pick({x \in Range(best) \X (1..GenForkLen) :
+                               /\ Len(best) - Height(x[1]) <= GenForkDepth
+                               /\ x[1] # Tip /\ x[1] >= Base
+                               /\ NBlk + x[2] <= MaxBlocks}) :
+             LET p == pk[1]  k == pk[2] IN
+             /\ \E cs \in Pick(BranchContents(CC(Path(p)), NBlk, k)) :
+                   /\ ForkSlow(p, cs) /\ UNCHANGED followerVars
+                   /\ Log([a |-> "ForkSlow", b |-> NBlk + 1, p |-> p, txs |-> cs])
+       \/ /\ GenMulti /\ up /\ ReorgStep /\ UNCHANGED followerVars
+          /\ Log([a |-> "ReorgStep", det |-> ReorgDetaches, b |-> IF ReorgDetaches THEN Tip ELSE Last(best'), done |-> reorg' = 0])
        \/ /\ GenPending /\ up
           /\ \E t \in Pick({x \in TxIds : PoolOK(x, pool, CC(best))}) :
              /\ Announce(t) /\ UNCHANGED followerVars
